@@ -117,7 +117,7 @@ EvalN(P, R, rid, n, add) ==
         ps == EvalParams(P, R, rid, nd.params, 1, add)
     IN  IF ps.causes # {}
         THEN WithR(<<"F", ps.causes>>, NoMust(ps.acc))
-        ELSE LET kw0 == IF n = P.input THEN R.input ELSE ps.kw
+        ELSE LET kw0 == IF n = P.input THEN R.input ELSE nd.const \o ps.kw     \* build_node's dependencies_default
                  kw  == IF n \in DOMAIN add THEN << <<"additional_data", add[n]>> >> \o kw0 ELSE kw0
                  b   == Attempt(R, rid, nd, kw, 1)
                  me  == {<<n, kw, b.cnt>>}
